@@ -50,6 +50,12 @@ class P:
                  # next one begins), here-document bodies of several lines (not merged into one literal there)
                  {"a": "echo 'a\nb'c "}, {"a": "echo \"a\nb\"$c "}, {"a": "cat <<E\nfoo\nbar\nE\n"}, {"a": "echo ${x:-'a\nb'}c"}, {"a": "x='1\n2'$y z"},
                  {"a": "echo \"a\nb\"'c\nd'e$(f\ng)h"}, {"a": "cat <<E\n$x\n$y z\nE\n"}, {"a": "echo a\\\nb\\\n$c"}, {"a": "x=$(cat <<E\n$(cat <<F\nf\nF\n)\nE\n) y"}]
+        # every construct with a layout decision of its own, holding a quotation that ends in (or holds) a newline as its last or
+        # only part: inside alias text the part ends on a later line than the construct begins
+        for tpl in ("echo $((%s))", "((%s))", "echo $(b %s)", "echo `b %s`", "echo ${x:-%s}", "echo \"$((%s))\"", "x=$((%s)) y", "{ echo $((%s)); }",
+                    "if ((%s)); then b; fi", "echo $(( $((%s)) ))", "for i in %s; do b; done", "case %s in c) d;; esac", "b >%s", "f() ((%s))"):
+            for w in ("\"1\n\"", "'1\n'", "1 + \"\n\"", "\"\n\"", "$x\"\n\"", "\"a\nb\"", "'\n'1", "1 +\n2", "\"$(c\nd)\n\""):
+                atabs.append({"a": tpl % w})
         asrcs = ["a", "a\n", "a\n1 ))\n", "a\n1 ))\nE\n", "{ a; }", "( a )", "a | a", "if a; then a; fi", "while a; do a; done", "a\n1 ))", "x=1 a", "a z", "a; a"]
         down += ["%s\t%s" % (hx(s_), al(t_)) for t_ in atabs for s_ in asrcs]
         alpha = ["a", "1", "x", "*", "?", "[", "]", "!", "^", "-", "\\", ".", "/", "(", ")", "+", "=", " ", "\n", "é", "\xff", "$", "~", ":", "<", ">", "&", "|", "%", "0x", "08", "<<", ">>", "64", "-1"]
